@@ -733,6 +733,7 @@ package sod
 //@ ensures [C14 get.isolated] imp(err == nil && cacheOn(db.schemas[T]) && old(has(db.schemas, T) && cached(db, db.schemas[T], u)), fresh(out) && out != in)
 //@ ensures [C13 get.not-eoi] err != ErrEOI
 //@ ensures [C02 get.type] imp(err == nil, out != nil && dyntype(out) == dyntype(in))
+//@ ensures [C01 get.out] imp(old(has(db.schemas, T)), err != ErrEOI && out != nil && out.uuid == u && dyntype(out) == dyntype(in))
 //@ ensures [C01 get.wf] wfDB(db)
 //@ ensures [C01 get.readonly] FSk == old(FSk) && FSc == old(FSc) && forallk(t, string, has(db.asyncw.m, t) == old(has(db.asyncw.m, t)) && db.asyncw.m[t] == old(db.asyncw.m[t]) && imp(has(db.asyncw.m, t), forallk(w, string, has(db.asyncw.m[t].m, w) == old(has(db.asyncw.m[t].m, w)) && db.asyncw.m[t].m[w] == old(db.asyncw.m[t].m[w]))))
 //@ ensures [C01 get.others] db.schemas == old(db.schemas) && forallk(t, string, imp(t != T, has(db.schemas, t) == old(has(db.schemas, t)) && db.schemas[t] == old(db.schemas[t]))) && imp(old(has(db.schemas, T)), has(db.schemas, T) && db.schemas[T] == old(db.schemas[T]))
@@ -906,6 +907,8 @@ package sod
 //@ let u string := o.uuid
 //@ assume [single-collection] forallk(t, string, imp(has(db.schemas, t), t == T))
 //@ ensures [C01 del.schema] imp(err == nil, has(db.schemas, T))
+//@ ensures [C01 del.ids] imp(old(has(db.schemas, T)), forallk(id, uint64, imp(has(db.schemas[T].ObjectIndex.ObjectIds, id), old(has(db.schemas[T].ObjectIndex.ObjectIds, id)) && db.schemas[T].ObjectIndex.ObjectIds[id] == old(db.schemas[T].ObjectIndex.ObjectIds[id]))) && forallk(w, string, imp(has(db.schemas[T].ObjectIndex.uuids, w), db.schemas[T].ObjectIndex.uuids[w] == old(db.schemas[T].ObjectIndex.uuids[w]))))
+//@ ensures [C05 del.error-kind] imp(err != nil && old(has(db.schemas, T)), isStorage(err))
 //@ ensures [C01 del.gone] imp(has(db.schemas, T) && (err == nil || isStorage(err)) && old(has(db.schemas, T)) && db.schemas[T].coherent, !has(db.schemas[T].ObjectIndex.uuids, u) && !cached(db, db.schemas[T], u) && !pend(db, db.schemas[T], u))
 //@ ensures [C01 C10 del.file-gone] imp(err == nil && old(has(db.schemas, T)) && db.schemas[T].coherent, FSk[opath(db, db.schemas[T], u)] == 0)
 //@ ensures [C01 del.others] imp(old(has(db.schemas, T)), forallk(w, string, imp(w != u, has(db.schemas[T].ObjectIndex.uuids, w) == old(has(db.schemas[T].ObjectIndex.uuids, w)) && value(db, db.schemas[T], w) == old(value(db, db.schemas[T], w)))))
@@ -1111,6 +1114,7 @@ package sod
 //@ ensures [C01 next.stored] imp(inr && has(db.schemas, T) && db.schemas[T].coherent && has(db.schemas[T].ObjectIndex.uuids, it.uuids[k]), (err == nil && o != nil && o.uuid == it.uuids[k] && o.content == value(db, db.schemas[T], it.uuids[k])) || isStorage(err))
 //@ ensures [C01 C20 next.absent] imp(inr && has(db.schemas, T) && db.schemas[T].coherent && !has(db.schemas[T].ObjectIndex.uuids, it.uuids[k]), err != nil && !isStorage(err))
 //@ ensures [C02 next.type] imp(err == nil, o != nil && dyntype(o) == it.tdyn)
+//@ ensures [C01 next.out] imp(inr && old(has(db.schemas, T)), o != nil && o.uuid == it.uuids[k] && dyntype(o) == it.tdyn)
 //@ ensures [C01 next.same] it.uuids == old(it.uuids) && it.reverse == old(it.reverse) && it.db == db && it.tdyn == old(it.tdyn)
 //@ ensures [C01 next.wf] wfDB(db)
 //@ ensures [C01 next.readonly] FSk == old(FSk) && FSc == old(FSc) && asyncwSame(db)
@@ -1164,6 +1168,7 @@ package sod
 //@ ensures [C13 C20 it.resolves] imp(err == nil, has(db.schemas, T) && forall(k, 0, len(s.fields), it.uuids[k] == ite(has(db.schemas[T].ObjectIndex.ObjectIds, s.fields[k].ObjectId), db.schemas[T].ObjectIndex.ObjectIds[s.fields[k].ObjectId], "")))
 //@ ensures [C01 it.wf] imp(s.err == nil, wfDBbase(db) && imp(old(collsOK(db)), collsOK(db)))
 //@ ensures [C17 it.readonly] FSk == old(FSk) && FSc == old(FSc)
+//@ ensures [C11 it.coherent] imp(err == nil && !old(has(db.schemas, T)), db.schemas[T].coherent)
 //@ ensures [C01 it.others] imp(s.err == nil, db.schemas == old(db.schemas) && forallk(t, string, imp(t != T, has(db.schemas, t) == old(has(db.schemas, t)) && db.schemas[t] == old(db.schemas[t]))) && imp(old(has(db.schemas, T)), has(db.schemas, T) && db.schemas[T] == old(db.schemas[T])))
 //@ loop 1 invariant [bounds] (-1 <= rangeindex && rangeindex < len(s.fields)) || (rangeindex == -1 && len(s.fields) == 0)
 //@ loop 1 invariant [it] it != nil && fresh(it) && it.db == db && it.i == 0 && !it.reverse && it.tdyn == dyntype(s.object) && len(it.uuids) == rangeindex + 1 && fresh(arr(it.uuids))
@@ -1268,6 +1273,7 @@ package sod
 //@ ensures [C01 iter.distinct] imp(err == nil, forall(a, 0, len(it.uuids), forall(b, a+1, len(it.uuids), it.uuids[a] != it.uuids[b])))
 //@ ensures [C01 iter.complete] imp(err == nil, forallk(u, string, imp(has(db.schemas[T].ObjectIndex.uuids, u), 0 <= w[u] && w[u] < len(it.uuids) && it.uuids[w[u]] == u)))
 //@ ensures [C01 iter.wf] wfDBbase(db) && imp(old(collsOK(db)), collsOK(db))
+//@ ensures [C11 iter.coherent] imp(err == nil && !old(has(db.schemas, T)), db.schemas[T].coherent)
 //@ ensures [C17 iter.readonly] FSk == old(FSk) && FSc == old(FSc)
 //@ ensures [C01 iter.others] db.schemas == old(db.schemas) && forallk(t, string, imp(t != T, has(db.schemas, t) == old(has(db.schemas, t)) && db.schemas[t] == old(db.schemas[t]))) && imp(old(has(db.schemas, T)), has(db.schemas, T) && db.schemas[T] == old(db.schemas[T]))
 //@ loop 1 ghost w garray[string]int
@@ -1905,3 +1911,126 @@ package sod
 //@ modifies Ghost.ACQ_H, iterator.i, MapDom[string,*Schema]@s.db.schemas, MapVal[string,*Schema]@s.db.schemas, MapCard[string,*Schema]@s.db.schemas, Async.routineStarted, MapDom[string,*objectMap]@s.db.cache.m, MapVal[string,*objectMap]@s.db.cache.m, MapCard[string,*objectMap]@s.db.cache.m, MapDom[string,Object], MapVal[string,Object], MapCard[string,Object]
 //@ allocates Search.db, Search.object, Search.fields, Search.limit, Search.reverse, Search.err, Elem[*indexedField], MapDom[uint64,bool], MapVal[uint64,bool], MapCard[uint64,bool]
 //@ allocates Async.Enable, Async.Threshold, Async.Timeout, Elem[interface{}], Elem[string], MapCard[string,*fieldIndex], MapCard[string,uint64], MapCard[uint64,*indexedField], MapCard[uint64,string], MapDom[string,*fieldIndex], MapDom[string,uint64], MapDom[uint64,*indexedField], MapDom[uint64,string], MapVal[string,*fieldIndex], MapVal[string,uint64], MapVal[uint64,*indexedField], MapVal[uint64,string], Object.content, Object.stage, Object.uuid, Schema.AsyncWrites, Schema.Cache, Schema.Compress, Schema.Extension, Schema.Fields, Schema.ObjectIndex, Schema.coherent, Schema.db, Schema.object, Schema.transformers, fieldIndex.Cast, fieldIndex.Constraints.Index, fieldIndex.Constraints.Lower, fieldIndex.Constraints.Unique, fieldIndex.Constraints.Upper, fieldIndex.Index, fieldIndex.Name, fieldIndex.nameSplit, fieldIndex.objectIds, fieldIndex.pos, indexedField.ObjectId, indexedField.Value, iterator.db, iterator.reverse, iterator.t, iterator.tdyn, iterator.uuids, objIndex.Fields, objIndex.ObjectIds, objIndex.i, objIndex.otype, objIndex.uuids, objIndex.ver, objectMap.RWMutex, objectMap.m
+
+
+// ---- deleting through an iterator (C01, C02, C08) ----------------------------------------------
+
+//@ func (*DB).deleteObjects
+//@ serves C01 C02 C04 C05 C08 C09 C10
+//@ requires [wf] wfDB(db) && wfIter(from) && from.db == db && has(db.schemas, stypeOf(from.tdyn)) && db.schemas[stypeOf(from.tdyn)].coherent
+//@ requires [C08 locked] H == 2
+//@ requires [C09 lock-free] SL == 0 && HS == 0 && HM == 0
+//@ let T string := stypeOf(from.tdyn)
+//@ let sch *Schema := db.schemas[stypeOf(from.tdyn)]
+//@ let idx *objIndex := db.schemas[stypeOf(from.tdyn)].ObjectIndex
+//@ let i0 int := from.i
+//@ let rev bool := from.reverse
+//@ let us []string := from.uuids
+//@ assume [single-collection] forallk(t, string, imp(has(db.schemas, t), t == T))
+//@ ensures [C01 C02 delobj.all-gone] imp(err == nil && !rev && i0 == 0, forall(k, 0, len(us), !has(idx.uuids, us[k])))
+//@ ensures [C01 C02 delobj.only-listed] forallk(u, string, imp(old(has(idx.uuids, u)) && !has(idx.uuids, u), exists(k, 0, len(us), us[k] == u)))
+//@ ensures [C01 delobj.none-added] forallk(u, string, imp(has(idx.uuids, u), old(has(idx.uuids, u)) && value(db, sch, u) == old(value(db, sch, u))))
+//@ ensures [C01 delobj.ids] forallk(id, uint64, imp(has(idx.ObjectIds, id), old(has(idx.ObjectIds, id)) && idx.ObjectIds[id] == old(idx.ObjectIds[id]))) && forallk(w, string, imp(has(idx.uuids, w), idx.uuids[w] == old(idx.uuids[w])))
+//@ ensures [C04 delobj.committed] imp(err == nil && !asyncOn(sch), committed(db, sch))
+//@ ensures [C01 delobj.wf-base] wfDBbase(db) && has(db.schemas, T) && db.schemas[T] == sch && sch.ObjectIndex == idx
+//@ ensures [C01 delobj.wf] imp(!isStorage(err), collsOK(db))
+//@ loop 1 invariant [frame] preserved(Elem[string], iterator.uuids, iterator.reverse, iterator.db, iterator.tdyn, DB.schemas, DB.cache, DB.asyncw, DB.root, Schema.ObjectIndex, Schema.coherent, objIndex.uuids, objIndex.ObjectIds, objIndex.Fields) && preservedAt(MapDom[string,*Schema], db.schemas) && preservedAt(MapVal[string,*Schema], db.schemas) && preservedAt(MapCard[string,*Schema], db.schemas) && preservedAt(iterator.i, from)
+//@ loop 1 invariant [locals] H == 2 && SL == 0 && HS == 0 && HM == 0
+//@ loop 1 invariant [table] has(db.schemas, T) && db.schemas[T] == sch && sch.ObjectIndex == idx && sch.coherent && forallk(t, string, imp(has(db.schemas, t), t == T))
+//@ loop 1 invariant [iter] wfIter(from) && from.db == db && from.uuids == us && from.reverse == rev && from.tdyn == old(from.tdyn)
+//@ loop 1 invariant [wf] wfDB(db)
+//@ loop 1 invariant [cursor] imp(!rev && i0 == 0, 0 <= from.i && from.i <= len(us) + 1 && imp(err == ErrEOI, from.i >= len(us)) && imp(err != ErrEOI, 1 <= from.i && from.i <= len(us)))
+//@ loop 1 invariant [current] imp(err != ErrEOI, o != nil && dyntype(o) == from.tdyn && exists(k, 0, len(us), us[k] == o.uuid) && imp(!rev && i0 == 0, o.uuid == us[from.i - 1]))
+//@ loop 1 invariant [gone] imp(!rev && i0 == 0, forall(k, 0, ite(err == ErrEOI, from.i, from.i - 1), k >= len(us) || !has(idx.uuids, us[k])))
+//@ loop 1 invariant [only-listed] forallk(u, string, imp(old(has(idx.uuids, u)) && !has(idx.uuids, u), exists(k, 0, len(us), us[k] == u)))
+//@ loop 1 invariant [ids] forallk(id, uint64, imp(has(idx.ObjectIds, id), old(has(idx.ObjectIds, id)) && idx.ObjectIds[id] == old(idx.ObjectIds[id]))) && forallk(w, string, imp(has(idx.uuids, w), idx.uuids[w] == old(idx.uuids[w])))
+//@ loop 1 invariant [none-added] forallk(u, string, imp(has(idx.uuids, u), old(has(idx.uuids, u)) && value(db, sch, u) == old(value(db, sch, u))))
+//@ modifies Ghost.FSk, Ghost.FSc, iterator.i@from, Async.routineStarted, MapDom[string,*Schema]@db.schemas, MapVal[string,*Schema]@db.schemas, MapCard[string,*Schema]@db.schemas, MapDom[string,*objectMap], MapVal[string,*objectMap], MapCard[string,*objectMap], MapDom[string,Object], MapVal[string,Object], MapCard[string,Object], objIndex.ver, MapDom[string,uint64], MapVal[string,uint64], MapCard[string,uint64], MapDom[uint64,string], MapVal[uint64,string], MapCard[uint64,string], fieldIndex.Index, fieldIndex.pos, MapDom[uint64,*indexedField], MapVal[uint64,*indexedField], MapCard[uint64,*indexedField], Elem[*indexedField]
+//@ allocates Async.Enable, Async.Threshold, Async.Timeout, Elem[interface{}], Elem[string], Elem[uint8], MapCard[string,*fieldIndex], MapDom[string,*fieldIndex], MapVal[string,*fieldIndex], Object.content, Object.stage, Object.uuid, Schema.AsyncWrites, Schema.Cache, Schema.Compress, Schema.Extension, Schema.Fields, Schema.ObjectIndex, Schema.coherent, Schema.db, Schema.object, Schema.transformers, fieldIndex.Cast, fieldIndex.Constraints.Index, fieldIndex.Constraints.Lower, fieldIndex.Constraints.Unique, fieldIndex.Constraints.Upper, fieldIndex.Name, fieldIndex.nameSplit, fieldIndex.objectIds, indexedField.ObjectId, indexedField.Value, objIndex.Fields, objIndex.ObjectIds, objIndex.i, objIndex.otype, objIndex.uuids, objectMap.RWMutex, objectMap.m
+
+//@ func (*DB).DeleteObjects
+//@ serves C01 C02 C04 C08 C09
+//@ requires [wf] wfDB(db) && wfIter(from) && from.db == db && has(db.schemas, stypeOf(from.tdyn)) && db.schemas[stypeOf(from.tdyn)].coherent
+//@ requires [C09 lock-free] lockFree()
+//@ let T string := stypeOf(from.tdyn)
+//@ let sch *Schema := db.schemas[stypeOf(from.tdyn)]
+//@ let idx *objIndex := db.schemas[stypeOf(from.tdyn)].ObjectIndex
+//@ let i0 int := from.i
+//@ let rev bool := from.reverse
+//@ let us []string := from.uuids
+//@ assume [single-collection] forallk(t, string, imp(has(db.schemas, t), t == T))
+//@ ensures [C08 one-section] ACQ_H == old(ACQ_H) + 1 && lockFree()
+//@ ensures [C01 C02 DelObj.all-gone] imp(err == nil && !rev && i0 == 0, forall(k, 0, len(us), !has(idx.uuids, us[k])))
+//@ ensures [C01 C02 DelObj.only-listed] forallk(u, string, imp(old(has(idx.uuids, u)) && !has(idx.uuids, u), exists(k, 0, len(us), us[k] == u)))
+//@ ensures [C01 DelObj.none-added] forallk(u, string, imp(has(idx.uuids, u), old(has(idx.uuids, u)) && value(db, sch, u) == old(value(db, sch, u))))
+//@ ensures [C04 DelObj.committed] imp(err == nil && !asyncOn(sch), committed(db, sch))
+//@ ensures [C01 DelObj.wf-base] wfDBbase(db)
+//@ ensures [C01 DelObj.wf] imp(!isStorage(err), collsOK(db))
+//@ modifies Ghost.ACQ_H, Ghost.FSk, Ghost.FSc, iterator.i@from, Async.routineStarted, MapDom[string,*Schema]@db.schemas, MapVal[string,*Schema]@db.schemas, MapCard[string,*Schema]@db.schemas, MapDom[string,*objectMap], MapVal[string,*objectMap], MapCard[string,*objectMap], MapDom[string,Object], MapVal[string,Object], MapCard[string,Object], objIndex.ver, MapDom[string,uint64], MapVal[string,uint64], MapCard[string,uint64], MapDom[uint64,string], MapVal[uint64,string], MapCard[uint64,string], fieldIndex.Index, fieldIndex.pos, MapDom[uint64,*indexedField], MapVal[uint64,*indexedField], MapCard[uint64,*indexedField], Elem[*indexedField]
+//@ allocates Async.Enable, Async.Threshold, Async.Timeout, Elem[interface{}], Elem[string], Elem[uint8], MapCard[string,*fieldIndex], MapDom[string,*fieldIndex], MapVal[string,*fieldIndex], Object.content, Object.stage, Object.uuid, Schema.AsyncWrites, Schema.Cache, Schema.Compress, Schema.Extension, Schema.Fields, Schema.ObjectIndex, Schema.coherent, Schema.db, Schema.object, Schema.transformers, fieldIndex.Cast, fieldIndex.Constraints.Index, fieldIndex.Constraints.Lower, fieldIndex.Constraints.Unique, fieldIndex.Constraints.Upper, fieldIndex.Name, fieldIndex.nameSplit, fieldIndex.objectIds, indexedField.ObjectId, indexedField.Value, objIndex.Fields, objIndex.ObjectIds, objIndex.i, objIndex.otype, objIndex.uuids, objectMap.RWMutex, objectMap.m
+
+//@ func (*DB).DeleteAll
+//@ serves C01 C04 C08 C09
+//@ requires [wf] wfDB(db) && of != nil
+//@ requires [C09 lock-free] lockFree()
+//@ let T string := stypeOf(dyntype(of))
+//@ assume [single-collection] forallk(t, string, imp(has(db.schemas, t), t == T))
+//@ assume [coherent] forallk(t, string, imp(has(db.schemas, t), db.schemas[t].coherent))
+//@ ensures [C08 one-section] ACQ_H == old(ACQ_H) + 1 && lockFree()
+//@ ensures [C01 DeleteAll.empty] imp(err == nil, has(db.schemas, T) && forallk(u, string, !has(db.schemas[T].ObjectIndex.uuids, u)))
+//@ ensures [C04 DeleteAll.committed] imp(err == nil && !asyncOn(db.schemas[T]), committed(db, db.schemas[T]))
+//@ ensures [C01 DeleteAll.wf-base] wfDBbase(db)
+//@ ensures [C01 DeleteAll.wf] imp(!isStorage(err), collsOK(db))
+//@ modifies Ghost.ACQ_H, Ghost.FSk, Ghost.FSc, iterator.i, Async.routineStarted, MapDom[string,*Schema]@db.schemas, MapVal[string,*Schema]@db.schemas, MapCard[string,*Schema]@db.schemas, MapDom[string,*objectMap], MapVal[string,*objectMap], MapCard[string,*objectMap], MapDom[string,Object], MapVal[string,Object], MapCard[string,Object], objIndex.ver, MapDom[string,uint64], MapVal[string,uint64], MapCard[string,uint64], MapDom[uint64,string], MapVal[uint64,string], MapCard[uint64,string], fieldIndex.Index, fieldIndex.pos, MapDom[uint64,*indexedField], MapVal[uint64,*indexedField], MapCard[uint64,*indexedField], Elem[*indexedField]
+//@ allocates Async.Enable, Async.Threshold, Async.Timeout, Elem[interface{}], Elem[string], Elem[uint8], MapCard[string,*fieldIndex], MapDom[string,*fieldIndex], MapVal[string,*fieldIndex], Object.content, Object.stage, Object.uuid, Schema.AsyncWrites, Schema.Cache, Schema.Compress, Schema.Extension, Schema.Fields, Schema.ObjectIndex, Schema.coherent, Schema.db, Schema.object, Schema.transformers, fieldIndex.Cast, fieldIndex.Constraints.Index, fieldIndex.Constraints.Lower, fieldIndex.Constraints.Unique, fieldIndex.Constraints.Upper, fieldIndex.Name, fieldIndex.nameSplit, fieldIndex.objectIds, indexedField.ObjectId, indexedField.Value, iterator.db, iterator.reverse, iterator.t, iterator.tdyn, iterator.uuids, objIndex.Fields, objIndex.ObjectIds, objIndex.i, objIndex.otype, objIndex.uuids, objectMap.RWMutex, objectMap.m
+
+// ---- searches: exported result handling ---------------------------------------------------------
+
+//@ func (*Search).ExpectsZeroOrN
+//@ serves C02 C19
+//@ requires s != nil
+//@ let e0 error := s.err
+//@ ensures [C02 ezn] result == s && imp(e0 != nil, s.err == e0) && imp(e0 == nil, (s.err == nil) == (len(s.fields) == 0 || len(s.fields) == n)) && imp(e0 == nil && s.err != nil, errIs(s.err, ErrUnexpectedNumberOfResults))
+//@ modifies Search.err@s
+//@ allocates Elem[interface{}]
+
+//@ func (*Search).Expects
+//@ serves C02 C19
+//@ requires s != nil
+//@ let e0 error := s.err
+//@ ensures [C02 expects] result == s && imp(e0 != nil, s.err == e0) && imp(e0 == nil, (s.err == nil) == (len(s.fields) == n)) && imp(e0 == nil && s.err != nil, errIs(s.err, ErrUnexpectedNumberOfResults))
+//@ modifies Search.err@s
+//@ allocates Elem[interface{}]
+
+//@ func (*Search).Iterator
+//@ serves C01 C02 C08 C09 C13 C20
+//@ requires [wf] wfSearch(s) && imp(s.err == nil, wfDBbase(s.db))
+//@ requires [C09 lock-free] lockFree()
+//@ let db *DB := s.db
+//@ let T string := stypeOf(dyntype(s.object))
+//@ let e0 error := s.err
+//@ ensures [C08 one-section] imp(e0 == nil, ACQ_H == old(ACQ_H) + 1) && imp(e0 != nil, ACQ_H == old(ACQ_H)) && lockFree()
+//@ ensures [C02 It.error] imp(e0 != nil, err == e0 && it == nil)
+//@ ensures [C13 It.fresh] imp(err == nil, it != nil && fresh(it) && it.db == db && it.i == 0 && !it.reverse && it.tdyn == dyntype(s.object) && len(it.uuids) == len(s.fields) && fresh(arr(it.uuids)))
+//@ ensures [C13 C20 It.resolves] imp(err == nil, has(db.schemas, T) && forall(k, 0, len(s.fields), it.uuids[k] == ite(has(db.schemas[T].ObjectIndex.ObjectIds, s.fields[k].ObjectId), db.schemas[T].ObjectIndex.ObjectIds[s.fields[k].ObjectId], "")))
+//@ ensures [C01 It.wf] imp(e0 == nil, wfDBbase(db) && imp(old(collsOK(db)), collsOK(db)))
+//@ ensures [C17 It.readonly] FSk == old(FSk) && FSc == old(FSc)
+//@ modifies Ghost.ACQ_H, MapDom[string,*Schema]@s.db.schemas, MapVal[string,*Schema]@s.db.schemas, MapCard[string,*Schema]@s.db.schemas, Async.routineStarted
+//@ allocates Async.Enable, Async.Threshold, Async.Timeout, Elem[*indexedField], Elem[string], MapCard[string,*fieldIndex], MapCard[string,uint64], MapCard[uint64,*indexedField], MapCard[uint64,string], MapDom[string,*fieldIndex], MapDom[string,uint64], MapDom[uint64,*indexedField], MapDom[uint64,string], MapVal[string,*fieldIndex], MapVal[string,uint64], MapVal[uint64,*indexedField], MapVal[uint64,string], Schema.AsyncWrites, Schema.Cache, Schema.Compress, Schema.Extension, Schema.Fields, Schema.ObjectIndex, Schema.coherent, Schema.db, Schema.object, Schema.transformers, fieldIndex.Cast, fieldIndex.Constraints.Index, fieldIndex.Constraints.Lower, fieldIndex.Constraints.Unique, fieldIndex.Constraints.Upper, fieldIndex.Index, fieldIndex.Name, fieldIndex.nameSplit, fieldIndex.objectIds, fieldIndex.pos, indexedField.ObjectId, indexedField.Value, iterator.db, iterator.i, iterator.reverse, iterator.t, iterator.tdyn, iterator.uuids, objIndex.Fields, objIndex.ObjectIds, objIndex.i, objIndex.otype, objIndex.uuids, objIndex.ver
+
+//@ func (*Search).Delete
+//@ serves C01 C02 C04 C08 C09 C20
+//@ requires [wf] wfSearch(s) && imp(s.err == nil, wfDB(s.db) && distinctIds(s.fields))
+//@ requires [C09 lock-free] lockFree()
+//@ let db *DB := s.db
+//@ let T string := stypeOf(dyntype(s.object))
+//@ let e0 error := s.err
+//@ let f0 []*indexedField := s.fields
+//@ assume [single-collection] imp(s.err == nil, forallk(t, string, imp(has(db.schemas, t), t == T)))
+//@ assume [coherent] imp(s.err == nil, forallk(t, string, imp(has(db.schemas, t), db.schemas[t].coherent)))
+//@ ensures [C08 one-section] imp(e0 == nil, ACQ_H == old(ACQ_H) + 1) && imp(e0 != nil, ACQ_H == old(ACQ_H) && err == e0) && lockFree()
+//@ ensures [C04 SDelete.committed] imp(e0 == nil && err == nil && !asyncOn(db.schemas[T]), committed(db, db.schemas[T]))
+//@ ensures [C01 SDelete.wf-base] imp(e0 == nil, wfDBbase(db))
+//@ ensures [C01 SDelete.wf] imp(e0 == nil && !isStorage(err), collsOK(db))
+//@ modifies Ghost.ACQ_H, Ghost.FSk, Ghost.FSc, iterator.i, Async.routineStarted, MapDom[string,*Schema]@s.db.schemas, MapVal[string,*Schema]@s.db.schemas, MapCard[string,*Schema]@s.db.schemas, MapDom[string,*objectMap], MapVal[string,*objectMap], MapCard[string,*objectMap], MapDom[string,Object], MapVal[string,Object], MapCard[string,Object], objIndex.ver, MapDom[string,uint64], MapVal[string,uint64], MapCard[string,uint64], MapDom[uint64,string], MapVal[uint64,string], MapCard[uint64,string], fieldIndex.Index, fieldIndex.pos, MapDom[uint64,*indexedField], MapVal[uint64,*indexedField], MapCard[uint64,*indexedField], Elem[*indexedField]
+//@ allocates Async.Enable, Async.Threshold, Async.Timeout, Elem[interface{}], Elem[string], Elem[uint8], MapCard[string,*fieldIndex], MapDom[string,*fieldIndex], MapVal[string,*fieldIndex], Object.content, Object.stage, Object.uuid, Schema.AsyncWrites, Schema.Cache, Schema.Compress, Schema.Extension, Schema.Fields, Schema.ObjectIndex, Schema.coherent, Schema.db, Schema.object, Schema.transformers, fieldIndex.Cast, fieldIndex.Constraints.Index, fieldIndex.Constraints.Lower, fieldIndex.Constraints.Unique, fieldIndex.Constraints.Upper, fieldIndex.Name, fieldIndex.nameSplit, fieldIndex.objectIds, indexedField.ObjectId, indexedField.Value, iterator.db, iterator.reverse, iterator.t, iterator.tdyn, iterator.uuids, objIndex.Fields, objIndex.ObjectIds, objIndex.i, objIndex.otype, objIndex.uuids, objectMap.RWMutex, objectMap.m
